@@ -1368,9 +1368,17 @@ func (v *Verifier) havocSets(st *State, sets map[string][]string, sorts map[stri
 		cur := v.env.heapGet(st, name, srt)
 		inner := strings.TrimSuffix(strings.TrimPrefix(srt, "(Array Int "), ")")
 		term := cur
+		mt, typed := v.env.mapTypes[name]
 		for _, o := range objs {
 			fv := v.env.ctx.freshConst("hv."+name, inner)
 			term = sto(term, o, fv)
+			if typed && mt.Shape == "field" && envInt("GOVC_TYPEDHAVOC", 1) == 1 {
+				// the unknown new value is still a value of the field's Go type
+				// (shape and range only: the value may refer to objects the callee allocates)
+				if f := v.env.typeFacts(nil, Value{T: fv, Sort: inner, GoT: mt.T}); f != "true" {
+					st.assume(f)
+				}
+			}
 		}
 		v.env.heapSet(st, name, srt, term)
 	}
